@@ -10,7 +10,8 @@ import copy, hashlib, os, subprocess, threading
 import vlib, filegen, zckfmt
 
 THEOREMS = ["C02_read_close_success_is_verified_content_zstd", "C02_declared_sizes", "C02_unzck_exit0_output_zstd",
-            "C02_read_close_success_is_verified_content", "C02_unzck_exit0_output", "C02_unzck_failure_no_output"]
+            "C02_read_close_success_is_verified_content", "C02_unzck_exit0_output", "C02_unzck_failure_no_output",
+            "C02_valid_file_reads_back"]
 ASSUMPTIONS = [
     "model Read/CompRead.v is a hand transcription of comp.c / zck.c / hash.c / zstd.c / nocomp.c / io.c (read path), tied by differential execution on valid files and mutants",
     "H (hash) and zdecomp (one-shot zstd decoder, with the produced length) are parameters of model and spec, instantiated with OpenSSL and libzstd in the run; no property of them is assumed",
@@ -208,6 +209,9 @@ def mutants(rng, b, tier):
 
     def emit(tag, hh, nb):
         out.append((tag + ":resealed", hh.build() + nb, True))
+        # the same file under the detached-header magic: the five magic bytes are the only part of the lead the
+        # header checksum does not cover, so this needs no re-sealing; the data section is read like any other
+        out.append((tag + ":resealed:zhr", b"\0ZHR1" + hh.build()[5:] + nb, True))
         raw = hh.build()
         l = zckfmt.parse_lead(f)
         # same edit with the ORIGINAL header checksum kept
